@@ -25,6 +25,8 @@ pub enum T {
     Incr,
     Decr,
     Flush,
+    /// flush with a delay far beyond the concurrent phase (time does not advance there)
+    FlushLater,
     SetOther,
     GetOther,
     SetBig,
@@ -37,6 +39,11 @@ pub enum T {
     SetCurSame,
     /// store under a key nobody else uses and that is absent initially (exact accounting)
     SetNew,
+    /// read-modify-write commands carrying the item's current CAS
+    IncrCur,
+    DecrCur,
+    AppendCur,
+    PrependCur,
 }
 
 pub fn instantiate(t: T, client: usize, key: &[u8], other: &[u8]) -> Cmd {
@@ -56,6 +63,7 @@ pub fn instantiate(t: T, client: usize, key: &[u8], other: &[u8]) -> Cmd {
         T::Incr => Cmd::Delta { incr: true, key: k, delta: 1 + client as u64, initial: 100, exp: 0, cas: CasArg::Zero, quiet: false },
         T::Decr => Cmd::Delta { incr: false, key: k, delta: 1 + client as u64, initial: 100, exp: 0, cas: CasArg::Zero, quiet: false },
         T::Flush => Cmd::Flush { delay: None, quiet: false },
+        T::FlushLater => Cmd::Flush { delay: Some(1000), quiet: false },
         T::SetOther => Cmd::Store { kind: StoreKind::Set, key: other.to_vec(), value: tag("O"), flags: 60, ttl: 0, cas: CasArg::Zero, quiet: false },
         T::GetOther => Cmd::Get { key: other.to_vec(), with_key: false, quiet: false },
         T::SetBig => Cmd::Store { kind: StoreKind::Set, key: k, value: vec![b'B'; 40], flags: 70, ttl: 0, cas: CasArg::Zero, quiet: false },
@@ -64,6 +72,10 @@ pub fn instantiate(t: T, client: usize, key: &[u8], other: &[u8]) -> Cmd {
         T::SetSame => Cmd::Store { kind: StoreKind::Set, key: k, value: b"10".to_vec(), flags: 90 + client as u32, ttl: 0, cas: CasArg::Zero, quiet: false },
         T::SetCurSame => Cmd::Store { kind: StoreKind::Set, key: k, value: b"10".to_vec(), flags: 95 + client as u32, ttl: 0, cas: CasArg::Current, quiet: false },
         T::DelOther => Cmd::Delete { key: other.to_vec(), cas: CasArg::Zero, quiet: false },
+        T::IncrCur => Cmd::Delta { incr: true, key: k, delta: 1 + client as u64, initial: 100, exp: 0, cas: CasArg::Current, quiet: false },
+        T::DecrCur => Cmd::Delta { incr: false, key: k, delta: 1 + client as u64, initial: 100, exp: 0, cas: CasArg::Current, quiet: false },
+        T::AppendCur => Cmd::Concat { append: true, key: k, value: tag("+"), cas: CasArg::Current, quiet: false },
+        T::PrependCur => Cmd::Concat { append: false, key: k, value: tag("-"), cas: CasArg::Current, quiet: false },
         T::SetNew => Cmd::Store { kind: StoreKind::Set, key: format!("new{}", client).into_bytes(), value: tag("N"), flags: 80, ttl: 0, cas: CasArg::Zero, quiet: false },
     }
 }
@@ -166,15 +178,15 @@ pub fn c03_families(tier: Tier) -> Vec<Family> {
             }
         }
         fams.push(Family { name: "2x2".into(), programs: progs, opts: opts(2, tier) });
-        // random policy with an unreachable limit in front of the same store
-        let mut progs = vec![];
-        for init in INITS {
-            for ms in multisets(&C03_ALPHA, 2) {
-                progs.push(mk(init, ms.iter().map(|t| vec![*t]).collect(), K, K, keys.clone(), Policy::Random(1 << 40)));
-            }
-        }
-        fams.push(Family { name: "2x1/random-policy".into(), programs: progs, opts: opts(3, tier) });
     }
+    // random policy with an unreachable limit in front of the same store
+    let mut progs = vec![];
+    for init in INITS {
+        for ms in multisets(&C03_ALPHA, 2) {
+            progs.push(mk(init, ms.iter().map(|t| vec![*t]).collect(), K, K, keys.clone(), Policy::Random(1 << 40)));
+        }
+    }
+    fams.push(Family { name: "2x1/random-policy".into(), programs: progs, opts: opts(if tier == Tier::Quick { 3 } else { 64 }, tier) });
     fams
 }
 
@@ -218,6 +230,20 @@ pub fn c04_families(tier: Tier) -> Vec<Family> {
         }
     }
     fams.push(Family { name: "2x1/random-policy".into(), programs: progs, opts: opts(if tier == Tier::Quick { 3 } else { 64 }, tier) });
+    // read-modify-write commands guarded by the current CAS: of two that read the same version only
+    // one may win, and a plain writer in between must make the guarded one fail
+    let guarded = [T::IncrCur, T::DecrCur, T::AppendCur, T::PrependCur];
+    let against = [T::IncrCur, T::DecrCur, T::AppendCur, T::PrependCur, T::Incr, T::Append, T::Set, T::SetCur, T::Del, T::Get];
+    let mut progs = vec![];
+    for (gi, g) in guarded.iter().enumerate() {
+        for (oi, o) in against.iter().enumerate() {
+            if oi < guarded.len() && oi < gi {
+                continue;
+            }
+            progs.push(mk(Init::Present, vec![vec![*g], vec![*o]], K, K, keys.clone(), Policy::None));
+        }
+    }
+    fams.push(Family { name: "2x1/rmw-with-cas".into(), programs: progs, opts: opts(if tier == Tier::Quick { 3 } else { 64 }, tier) });
     fams
 }
 
@@ -459,6 +485,8 @@ pub fn c01_families(tier: Tier) -> Vec<Family> {
         vec![T::Get],
         vec![T::Get, T::Get],
         vec![T::Flush],
+        // a pending delayed flush rewrites metadata of every item: it must not touch what is stored
+        vec![T::FlushLater],
     ];
     for (kname, other) in [("same-shard", &same), ("other-shard", &diff)] {
         let keys = vec![K.to_vec(), other.clone()];
